@@ -49,13 +49,16 @@ def _addr_only(report):
 class C01(verif.Spec):
     prop = "C01"
     comp = "dec"
-    lean_modules = ["ZvbiModel.Props.C01", "ZvbiModel.Props.C01Ttx", "ZvbiModel.Props.C01Enh", "ZvbiModel.Props.C01Trig"]
+    lean_modules = ["ZvbiModel.Props.C01", "ZvbiModel.Props.C01Ttx", "ZvbiModel.Props.C01Enh", "ZvbiModel.Props.C01Seq", "ZvbiModel.Props.C01Trig"]
     harness = "dec_harness"
     timeout_per_case = 20.0
     partial_note = ("proved: the enumerated safety obligations on the component models (Props/C01.lean recursion bound, "
                     "Props/C01Ttx.lean index bounds of the packet decoder, Props/C01Enh.lean: add_modulo / TOP navigation page "
                     "numbers in range, vbi_convert_page and the page formatter read inside cache_page_size, every cache page "
-                    "reference taken by object invocation released on every path, POP pointer / triplet index bounds; "
+                    "reference taken by object invocation released on every path, POP pointer / triplet index bounds; Props/C01Seq.lean: "
+                    "every X/26 store into enh_lop.enh[] at an index 0..207 for every packet history (sequence test and -1 sentinel "
+                    "regenerated), every row of the TOP index page below ROWS for any number of titles (type of the line counter "
+                    "regenerated); "
                     "Props/C01Trig.lean: trigger.c parsers never access memory outside the caller's string / url[] / buf[] / name[] / "
                     "script[] for any byte string, terminate within strlen + 2 iterations, accept a checksum attribute only when it "
                     "verifies, trigger list allocations balanced over all histories, itv_buf index <= 255 - for the source forms "
@@ -280,7 +283,9 @@ class C01(verif.Spec):
     def _bounds_stage(self, ctx):
         """second build: -fsanitize=bounds (recoverable), same cases' first part; any report outside the allow-list"""
         out = []
-        flags = ["-O1", "-g", "-fsanitize=bounds", "-fsanitize-recover=bounds", "-fno-omit-frame-pointer"]
+        # bounds-strict (gcc): plain -fsanitize=bounds does not instrument `&array[index]` handed to memset / memcpy, which
+        # is how an intra-object store in front of enh_lop.enh[] (seeded C01-i) would go unseen by ASan and by `bounds`
+        flags = ["-O1", "-g", "-fsanitize=bounds-strict", "-fsanitize-recover=bounds-strict", "-fno-omit-frame-pointer"]
         # the same build counts which Level 2.5 / TOP paths the cases reach (harness -DDEC_STATS, see dec_harness.c)
         exe, err = verif.build_harness("dec_harness", flags=flags, tag="bounds",
                                        extra=["-DDEC_STATS", "-Wl,--wrap=vbi_convert_page", "-Wl,--wrap=_vbi_cache_get_page"])
@@ -292,10 +297,15 @@ class C01(verif.Spec):
             p = subprocess.run([exe], input=text.encode(), stdout=subprocess.PIPE, stderr=subprocess.PIPE, timeout=600)
         except subprocess.TimeoutExpired:
             return []
-        rep = set()
+        rep, where, cur = set(), {}, None
         for line in p.stderr.decode("utf-8", "replace").split("\n"):
+            if line.startswith("DECCASE "):
+                cur = int(line.split()[1]) if line.split()[1].isdigit() else None
             if "runtime error: index" in line and not any(re.search(a, line) for a in BOUNDS_ALLOW) and not _addr_only(line):
-                rep.add(re.sub(r"^.*/src/", "", line.strip()))
+                r = re.sub(r"^.*/src/", "", line.strip())
+                rep.add(r)
+                if cur is not None and 0 <= cur < len(cases) and (r not in where or len(cases[cur]) < len(where[r])):
+                    where[r] = cases[cur]          # the shortest case showing the report becomes its replay
         self.extra_coverage.update({"bounds_build_cases": len(cases), "bounds_reports_outside_allowlist": sorted(rep)})
         st = re.findall(r"^DECSTATS (.*)$", p.stderr.decode("utf-8", "replace"), flags=re.M)
         reach = {}
@@ -317,7 +327,7 @@ class C01(verif.Spec):
             "known, nav_top_no_block_below = of these, no block/group page at or below the page (the scan wraps below 0x100); "
             "top_index = successful fetches of page 900")
         for r in sorted(rep)[:3]:
-            out.append(("array index out of bounds: " + r, []))
+            out.append(("array index out of bounds: " + r, where.get(r, [])))
         return out
 
 
